@@ -11,15 +11,23 @@ S: Encrypt.tla (mechanism of pkg/blobserver/encrypt: ciphertexts, meta blobs wit
    deleted by a job whose packed blob does not hold its entries) must violate Recoverable; reachability witnesses
    (PushBack, TwoGroups, Ignored, NotRerecorded, FullPacked) must each be violated; RecvBatch (the macro step of the
    trace spec) must add no reachable state (Macro = TRUE finds the same number of distinct states).
+   Transient failures (Encrypt_fault.cfg, MaxFault = 1): every lower-layer call of a receive (duplicate check, blobs.put,
+   meta.put, index.Set) and of a compaction job (index.Get, meta.put, meta.del incl. partial removal) may fail once, with or
+   without effect, and the process goes on - what the code does today (receive fails unacknowledged, job gives up with
+   everything kept) keeps every invariant; CompactionSkipsFailedEntry (the job leaves the failed entry out and deletes all
+   the small meta blobs) must violate Recoverable.
 G: EncryptGen.tla enumerates scenarios (history length class x restart points relative to the compaction steps;
    crash point = lower-layer call around one compaction x index kept/wiped x second crash inside the compaction the
-   restart starts; tamper target x kind x position class x index kept/wiped); harness/cmd/c11 runs them on the real
+   restart starts; fault = the same lower-layer call classes returning an injected error once (without / after effect, half
+   a RemoveBlobs) with the process going on x index kept/wiped at the later restart x continuation through the next
+   compaction; tamper target x kind x position class x index kept/wiped); harness/cmd/c11 runs them on the real
    encrypt store over gate stores (Plan.FreezeAt, Durable.Clone, rebuild with the index wiped), plus seeded random ones;
    family "long": Full + Limit + 50 receives through one store (the rolling packed meta blob exceeds Full lines), restarts
    before / at / after the crossing, a final restart from the wrapped stores alone, every blob fetched.
 T: Trace_Encrypt.tla validates every recorded segment in one linear pass per shard: every mutating lower-layer call
    must be the next step of the model with the code's threshold (100), projections of the real stores must equal the
-   model's state, crash states must be Recoverable, restarts must rebuild exactly the acknowledged map, the client
+   model's state, crash states must be Recoverable, a lower-layer call that returned an injected error must be the model's
+   failing step of that call, restarts must rebuild exactly the acknowledged map, the client
    view must be the BlobStore map, leak scans must be empty, tamper outcomes original-or-fail.  Long histories are
    validated at step level too: a run of complete, undisturbed receive cycles is ONE line carrying the data of all its
    lower-layer calls and ONE RecvBatch step (= k x RecvStart..RecvAck); every call of every compaction, every restart and
@@ -120,8 +128,12 @@ def classify(ctx, seg, idx, reasons, leg, replay_path=None):
         if scn.get("kind") == "crash":
             parts = label.split("/")
             fam = parts[0] + "".join("+" + p for p in parts[1:] if p.startswith("second@"))
+        elif scn.get("kind") == "fault" and label.startswith("fault@"):
+            fam = label.split("/wipe=")[0]          # fault@<call class>:<kind>
         else:
             fam = scn.get("kind", "?")
+        if ev.get("ev") == "lower" and ev.get("res", "ok") != "ok":
+            what += ":" + ev.get("res")
         if ev.get("ev") == "lower" and reasons[0].startswith("no step"):
             reasons = ["the lower-layer call '%s' is not the next step of the receive in flight or of a compaction job" % ev.get("act")]
         sig = "C11/encrypt/%s/%s/%s" % (fam, what, slug(reasons[0]))
@@ -233,6 +245,8 @@ def cost(s):
         return (6 * s["n"] + 400 * len(s.get("restarts", []))) * (2 if s.get("jitter") else 1)
     if s["kind"] == "crash":
         return 900 + 8 * s.get("cont", 0) + (300 if s.get("second") else 0)
+    if s["kind"] == "fault":
+        return 1200 + 10 * s.get("cont", 0)
     return 40 if s.get("pos") != "all" else 400
 
 
@@ -279,7 +293,32 @@ def negative_samples(ctx, evs):
             bad += c
             want.append("lost-after-restart")
             break
-    if len(want) < 3:
+    # (e) family fault: the call that returned the injected error reported as a success; (f) the receive that failed on it
+    # reported as acknowledged
+    nfault = 0
+    for s in segs:
+        if s[0].get("kind") != "fault":
+            continue
+        i_l = next((i for i, e in enumerate(s) if e.get("ev") == "lower" and e.get("res", "ok") != "ok"), None)
+        if i_l is None:
+            continue
+        if "failed-call-ok" not in want and not (s[i_l]["act"] == "metadel" and s[i_l]["res"] == "injected-after"):
+            c = [json.loads(json.dumps(e)) for e in s]          # (the whole segment: a job left pending is noticed at the restart)
+            c[i_l]["res"] = "ok"
+            bad += c
+            want.append("failed-call-ok")
+            nfault += 1
+        i_o = next((i for i, e in enumerate(s) if e.get("ev") == "op" and e.get("op") == "receive" and e.get("flt") and e.get("res") == "injected"), None)
+        if "failed-receive-acked" not in want and i_o is not None and not (s[i_l]["act"] == "idxset" and s[i_l]["res"] == "injected-after"):
+            c = [json.loads(json.dumps(e)) for e in s[:i_o + 1]]
+            c[i_o]["res"], c[i_o]["flt"] = "ok", False
+            c[i_o]["size"] = s[0]["sizes"][c[i_o]["b"] // 2 - 1]
+            bad += c
+            want.append("failed-receive-acked")
+            nfault += 1
+    if nfault < 2:
+        raise vlib.MachineryError("could not build the negative samples of the fault family (%s)" % want)
+    if len(want) < 5:
         raise vlib.MachineryError("could not build the negative samples (%s)" % want)
     bf = ctx.path("negative.ndjson")
     vlib.write_jsonl(bf, bad)
@@ -333,6 +372,7 @@ def run(ctx, replay):
     # 3 lines plus 2 small ones exceed Full); SPLIT: a gather closes two groups; PB: push-back of a left-over, a full meta
     # blob met by the start-up scan, a packed meta blob of exactly Full lines not recorded again
     FULL = "Encrypt_full.cfg"
+    FAULT = "Encrypt_fault.cfg"
     SPLIT = {"Plain": "{p1, p2, p3, p4}", "Limit": "3", "Full": "1", "MaxId": "12", "MaxCrash": "1", "MaxJobs": "3"}
     PB = {"Plain": "{p1, p2, p3, p4}", "Limit": "2", "Full": "3", "MaxId": "12", "MaxCrash": "2"}
     DROP = '{"FlushDropsCarriedMeta"}'
@@ -354,8 +394,14 @@ def run(ctx, replay):
         ("MC_Encrypt", FULL, dict(PB, Witness='"Ignored"'), "WitnessStep"),
         ("MC_Encrypt", FULL, dict(PB, Witness='"NotRerecorded"'), "WitnessStep"),
         ("MC_Encrypt", FULL, dict(PB, Witness='"FullPacked"'), "WitnessState"),
+        # transient lower-layer failures (one, anywhere, with or without effect; also followed by a crash)
+        ("MC_Encrypt", FAULT, None, None),
+        ("MC_Encrypt", "Encrypt_fault_dev.cfg", {"Deviations": '{"CompactionSkipsFailedEntry"}'}, "Recoverable"),
     ]
     if not quick:
+        s_jobs += [("MC_Encrypt", FAULT, {"Plain": "{p1, p2, p3, p4}", "MaxId": "11"}, None),
+                   ("MC_Encrypt", FAULT, {"MaxFault": "2"}, None),
+                   ("MC_Encrypt", FAULT, {"Plain": "{p1, p2, p3, p4}", "MaxId": "12", "MaxFault": "2", "MaxCrash": "0"}, None)]
         s_jobs += [("MC_Encrypt", "Encrypt.cfg", {"MaxId": "12", "MaxCrash": "2"}, None),
                    ("Encrypt", "Encrypt_tamper.cfg", {"Plain": "{p1, p2, p3, p4}", "MaxId": "9"}, None),
                    ("MC_Encrypt", FULL, {"MaxCrash": "1", "Macro": "TRUE"}, None),
@@ -373,6 +419,10 @@ def run(ctx, replay):
         loads[i] += cost(s)
     nrandom = 12 if quick else 60
 
+    spec_text = open(os.path.join(ctx.specs(), "Encrypt.tla")).read().split("\n")
+    skip_line = next(i + 1 for i, ln in enumerate(spec_text) if "\\E j \\in jobs : JobSkipMissing(j)" in ln)
+    scan_lines = [i + 1 for i, ln in enumerate(spec_text) if "\\E m \\in todo : ScanOne(m)" in ln]
+
     def s_work(job):
         m, c, ov, exp = job
         cov = (not quick) and exp is None
@@ -383,10 +433,18 @@ def run(ctx, replay):
             exempt = ("Crash",) if c == "Encrypt_tamper.cfg" else ("Tamper", "TamperedRestart", "Restore")
             if (ov or {}).get("Macro") != "TRUE":
                 exempt += ("MacroStep",)
+            exempt_at = ()
+            if c != FAULT:        # no transient failures there (MaxFault = 0)
+                exempt += ("FaultStep", "RecvStartErr", "RecvBlobFail", "RecvMetaFail", "RecvIndexFail")
+            else:                 # the job skips an entry only with the deviation CompactionSkipsFailedEntry
+                exempt_at = ("FaultStep@line%d" % skip_line,)
+                if (ov or {}).get("MaxCrash") == "0":
+                    exempt += ("Crash", "RestartBegin", "RestartEnd")
+                    exempt_at += tuple("ENext@line%d" % ln for ln in scan_lines)
             zero = []
             for mm in re.finditer(r"<(\w+) line (\d+), col \d+ to line \d+, col \d+ of module \w+(?: \((\d+) \d+ \d+ \d+\))?>: (\d+):(\d+)", r["out"]):
                 name = mm.group(1) if not mm.group(3) else "%s@line%s" % (mm.group(1), mm.group(3))
-                if int(mm.group(5)) == 0 and mm.group(1) not in exempt and not mm.group(1).startswith(("EInit",)):
+                if int(mm.group(5)) == 0 and mm.group(1) not in exempt and name not in exempt_at and not mm.group(1).startswith(("EInit",)):
                     zero.append(name)
             if zero:
                 raise vlib.MachineryError("anti-vacuity: actions never taken in %s/%s %s: %s" % (m, c, ov, zero))
@@ -452,13 +510,23 @@ def run(ctx, replay):
             classify(ctx, seg, idx, why, "T-random" if k == nshards else "G")
     # anti-vacuity of the scenario families: the crash sweep must have hit every class of mutating lower-layer call
     need = ["crash@blobs.put", "crash@meta.put:single", "crash@idx.set", "crash@meta.put:packed", "crash@meta.del/", "crash@meta.del:partial", "crash@end"]
+    # ... and the fault sweep every call class of the receive and of the job (classes name the call that actually failed)
+    need += ["fault@idx.get:dupcheck:error", "fault@blobs.put:error", "fault@meta.put:single:error", "fault@idx.set:error",
+             "fault@idx.get:job:error", "fault@meta.put:packed:error", "fault@meta.del:error", "fault@meta.del:partial",
+             "fault@meta.put:single:after", "fault@idx.set:after", "fault@meta.put:packed:after"]
     missing = [n for n in need if not any(c.startswith(n) for c in classes)]
     for attempt in range(3):
         if not missing:
             break
         # which call the k-th one is depends on how the job's index reads interleave with the receive's index.Set: sweep again
-        extra = [{"kind": "crash", "pre": 100, "at": a, "wipe": attempt % 2 == 0, "second": "", "cont": 3, "restarts": []}
-                 for a in ("w2", "w3", "w4", "w5", "w6", "e3", "e2", "e1", "e0", "rmpartial")]
+        extra = []
+        if any(n.startswith("crash@") for n in missing):
+            extra += [{"kind": "crash", "pre": 100, "at": a, "wipe": attempt % 2 == 0, "second": "", "cont": 3, "restarts": []}
+                      for a in ("w2", "w3", "w4", "w5", "w6", "e3", "e2", "e1", "e0", "rmpartial")]
+        if any(n.startswith("fault@") for n in missing):
+            extra += [{"kind": "fault", "pre": 100, "at": a, "fk": fk, "wipe": attempt % 2 == 0, "cont": 3, "restarts": []}
+                      for a in ("w1", "w2", "w3", "w4", "w5", "w6", "m50", "e3", "e2", "e1", "rmpartial") for fk in ("error", "after")
+                      if not (a == "rmpartial" and fk == "after")]
         res = run_shard(ctx, drv, "retry%d" % attempt, extra, ctx.seed + 1000 + attempt, keep=False)
         results.append(res)
         nseg += res["segments"]
@@ -470,16 +538,18 @@ def run(ctx, replay):
             classify(ctx, seg, idx, why, "G")
         missing = [n for n in need if not any(c.startswith(n) for c in classes)]
     if missing:
-        raise vlib.MachineryError("crash sweep did not reach: %s (classes: %s)" % (missing, sorted(classes)[:40]))
+        raise vlib.MachineryError("crash / fault sweep did not reach: %s (classes: %s)" % (missing, sorted(classes)[:60]))
     if not any("second@" in c for c in classes):
         raise vlib.MachineryError("no second crash inside a start-up compaction was exercised")
     # binding self-test on real segments of this run
     pool = []
     for res in results:
-        for fam in ("crash", "tamper", "hist"):
+        for fam in ("crash", "tamper", "hist", "fault"):
             starts = [i for i, e in enumerate(res["evs"]) if is_reset(e)] + [len(res["evs"])]
             for a, b in zip(starts, starts[1:]):
-                if res["evs"][a].get("kind") == fam and sum(1 for p in pool if p[0].get("kind") == fam) < 3:
+                # (fault: short continuations only, and enough of them to find a failed receive among them)
+                if res["evs"][a].get("kind") == fam and sum(1 for p in pool if p[0].get("kind") == fam) < (8 if fam == "fault" else 3) \
+                        and not (fam == "fault" and b - a > 2000):
                     pool.append(res["evs"][a:b])
     negative_samples(ctx, [e for s in pool for e in s])
     ctx.sample({"metas_after_230_receives": stats.get("metas_at_end:230"),
@@ -488,7 +558,11 @@ def run(ctx, replay):
                 "tamper_runs": stats.get("tamper_runs")})
     ctx.sample({"long_histories": len(longs), "long": {k: v for k, v in sorted(stats.items()) if k.startswith("long_")}})
     ctx.sample({"crash_classes": sorted(c for c in classes if c.startswith("crash@"))[:40]})
-    ctx.count("G", scenarios=len(scns), random=nrandom, segments=nseg, tamper_runs=stats.get("tamper_runs", 0))
+    fault_classes = sorted(set(c.split("/wipe=")[0] for c in classes if c.startswith("fault@")))
+    ctx.sample({"fault_classes": fault_classes})
+    ctx.count("G", scenarios=len(scns), random=nrandom, segments=nseg, tamper_runs=stats.get("tamper_runs", 0),
+              fault_scenarios=sum(1 for x in scns if x["kind"] == "fault"),
+              fault_segments=sum(v for c, v in classes.items() if c.startswith("fault@")), fault_call_classes=len(fault_classes))
     ctx.cov["traces_validated_against_impl"] = nseg
     ctx.cov["evaluations"] = nlines
     ctx.cov["exhaustive"] = True
@@ -497,12 +571,17 @@ def run(ctx, replay):
                        "kept/wiped, final restart from the wrapped stores alone, every blob fetched; macro lines for undisturbed "
                        "receive cycles) | "
                        "crash(frozen lower-layer call around one compaction incl. half-done RemoveBlobs, index kept/wiped, second crash "
-                       "inside the start-up compaction, continuation) | tamper(target class, kind, position class, index kept/wiped); all "
+                       "inside the start-up compaction, continuation) | fault(lower-layer call around one compaction returning an injected "
+                       "error once - without effect / after its effect / half a RemoveBlobs - the process going on, continuation through the "
+                       "next compaction, restart with the index kept/wiped) | tamper(target class, kind, position class, index kept/wiped); all "
                        "enumerated by EncryptGen.tla (%d) plus %d seeded random ones; every mutating lower-layer call, every projection of "
                        "the real stores, every reply, every leak scan and every tamper outcome is one validated trace line; distinct = "
                        "measured scenario classes (crash classes name the call that was actually frozen)" % (len(scns), nrandom))
     ctx.assumptions += [
         "gate stores / gate KV are correct lower layers; a crash is a prefix of lower-layer calls (Plan.FreezeAt), RemoveBlobs may stop half way",
+        "a transient failure is one lower-layer call returning an error once (gate.Fault: no effect / effect then error / half a RemoveBlobs); "
+        "a client that retries a failed upload does so unless the failed receive left a meta blob behind (conflicting entries for one blob "
+        "are outside the trace spec's restart rule)",
         "age is an ideal authenticated encryption: the model lets a damaged file never decrypt and an authentic one decrypt to what was encrypted; the real library decides on the real bytes",
         "no-leak is decided by the projection: every 16-byte window of every plain blob of >= 16 bytes and every plain ref (text, hex digest, raw digest) is searched in all bytes and names of both wrapped stores; the local index is not underneath",
         "compaction quiescence = no live makePackedMetaBlob goroutine (stack scan, bounded by a 30 s watchdog)",
